@@ -133,6 +133,28 @@ func c05Snapshot(c *Ctx) {
 			}
 		}
 	}
+	// Begin succeeds only with a snapshot taken by this very call: a Begin that answers success while
+	// keeping an older snapshot lets Rollback restore a state from before the transaction
+	{
+		h := an.THooks{Instr: func(in ssa.Instruction, st an.TState) an.TState {
+			if s, ok := in.(*ssa.Store); ok {
+				if fa, ok := s.Addr.(*ssa.FieldAddr); ok && an.FieldVar(fa.X.Type(), fa.Field) == txStart && !an.IsNilConst(s.Val) {
+					return ansState(true)
+				}
+			}
+			return st
+		}}
+		exits := an.WalkTypestate(begin, ansState(false), h, c.Scope(begin))
+		good := len(exits) > 0
+		why := ""
+		for _, ex := range exits {
+			if ex.ErrNil != 0 && !bool(ex.St.(ansState)) {
+				good = false
+				why = "Begin can answer success at " + c.P.Pos(ex.Ret.Pos()) + " without taking a snapshot (e.g. when one is still in place): the next ROLLBACK installs a tree from before this transaction — on a read-only table, whose xSync never ends the transaction, a zero-row write, a refresh and a rejected write make the table fall back to the rows it had before the refresh"
+			}
+		}
+		c.R.Cond(good, rule, core.FuncName(begin)+": success means a fresh snapshot", c.P.Pos(begin.Pos()), "every successful return of Begin stored a snapshot taken in this call", why)
+	}
 	// Rollback restores: store KV.Root = load txStart, guarded by txStart != nil
 	restored := false
 	for _, st := range an.StoresToField(rollback, kvRoot) {
@@ -423,6 +445,8 @@ func init() {
 	register(&Rule{Name: "C05.clone-deep", Min: 1, Run: c05CloneDeep,
 		Doc: "crdt.Tree.Clone returns a tree made by (*mast.Mast).Clone on every successful path: copying the handle shares the in-memory root node, which is written in place while it has never been stored"})
 	byProp["C05"] = append(byProp["C05"], "C05.clone-deep")
+	byProp["C13"] = append(byProp["C13"], "C05.snapshot")
+	explain["C13"] += " snapshot (shared with C05): 'write statements fail with an error and leave its visible rows unchanged' — a read-only table's transaction is never ended by xSync, so the rollback after a rejected write restores whatever snapshot Begin left in place; Begin succeeds only with a snapshot taken by that call."
 	byProp["C06"] = append(byProp["C06"], "C16.fresh-bytes", "C08.tables")
 	explain["C05"] += " clone-deep: mast.Clone is what marks the nodes of a tree shared, so that the next write copies them; a clone that only copies the Mast struct is independent for stored trees but not for a table that has never held a version — its root is an in-memory node that Insert changes in place, and ROLLBACK then 'restores' a snapshot that contains the rolled-back rows. Every successful return of (crdt.Tree).Clone lies on a path that called (*mast.Mast).Clone and returns a tree holding its result."
 	explain["C06"] += " fresh-bytes (shared with C16) and tables (shared with C08): node encodings are not shared buffers; INTEGER goes out through the 64-bit result call."
